@@ -164,7 +164,9 @@ func c12BoundedPasses(c *Ctx) {
 			sn := gg.Idx[fs.Store]
 			if fn == reloc {
 				idx := paramNamed(reloc, "objIndex")
-				if hasFact(gg.FactsAt(sn), func(f Fact) bool { return cmpMatch(f, token.EQL, func(v ssa.Value) bool { return v == ssa.Value(idx) }, isZeroConst) }) {
+				if hasFact(gg.FactsAt(sn), func(f Fact) bool {
+					return cmpMatch(f, token.EQL, func(v ssa.Value) bool { return v == ssa.Value(idx) }, isZeroConst)
+				}) {
 					// before any increment / recursion on the objIndex == 0 paths
 					early := true
 					for _, k := range storeNodes(gg, movedF) {
